@@ -364,7 +364,11 @@ CoreMenu == {PlainKV, Sel(<<P(K, "")>>, NoE, TRUE, NoLimit, "none"), Star(VPos, 
              Agg(<<KeyK, CountV>>, <<K>>, NoE, NoH, FALSE, NoLimit, "none"),
              Agg(<<CountStar, MaxK>>, <<>>, VPos, NoH, FALSE, NoLimit, "none"),
              Agg(<<KeyK, MinOfV>>, <<K>>, NoE, HAgg(CountStar, ">", IntV(1)), TRUE, NoLimit, "none")}
-FollowMenu == CoreMenu \cup {[PlainKV EXCEPT !.limit = n] : n \in 0..3} \cup {[Sel(<<P(K, "")>>, NoE, TRUE, NoLimit, "none") EXCEPT !.limit = n] : n \in 0..2}
+\* aggregates with LIMIT in follow mode: the run ends once the rows of the tables shown so far reach the limit (Engine.tla, ReadLine)
+FollowAggLimitMenu0 == {[s EXCEPT !.limit = n] : s \in {Agg(<<KeyK, CountStar>>, <<K>>, NoE, NoH, FALSE, NoLimit, "none"),
+                                                        Agg(<<CountStar, MaxK>>, <<>>, NoE, NoH, FALSE, NoLimit, "none"),
+                                                        Agg(<<KeyK, MinOfV>>, <<K>>, NoE, HAgg(CountStar, ">", IntV(1)), FALSE, NoLimit, "none")}, n \in 0..4}
+FollowMenu == CoreMenu \cup {[PlainKV EXCEPT !.limit = n] : n \in 0..3} \cup {[Sel(<<P(K, "")>>, NoE, TRUE, NoLimit, "none") EXCEPT !.limit = n] : n \in 0..2} \cup FollowAggLimitMenu0
 CoreLimitMenu == CoreMenu \cup {[PlainKV EXCEPT !.limit = 2], [Sel(<<P(K, "")>>, NoE, TRUE, NoLimit, "none") EXCEPT !.limit = 1]}
 
 \* C05
